@@ -183,7 +183,7 @@ def _label_class(labels):
 
 def _build(qv, src):
     kind = src["kind"]
-    terms = [(tuple(k), v) for k, v in src["terms"]]
+    terms = [(tuple(k), gen.wrap_number(v, src.get("ctype"))) for k, v in src["terms"]]
     if kind.startswith("dict"):
         return gen.terms_dict(terms)
     builder = gen.build if src.get("ctor", "iadd") == "iadd" else gen.build_from_dict
